@@ -265,6 +265,7 @@ func c16(r *report.Run) {
 	})
 	// maps: typed, untyped and named map types with methods
 	c16Maps(r, &evals)
+	c16SpecialNames(r, &evals)
 	r.Sample(map[string]interface{}{"type": cases[len(cases)/2].Decl, "names": c16Names, "forms": []string{"Name", "Name()", "V.Name", "V.Name()"}})
 	r.Set("environment_types", len(cases))
 	r.Set("evaluations", evals)
@@ -327,6 +328,50 @@ func c16Maps(r *report.Run, evals *int64) {
 			if static != nil && static.Kind() != reflect.Interface && reflect.TypeOf(out) != static {
 				r.Report(report.Violation{Sub: "map-env", Kind: "type-differs-from-checker", Witness: src + " on " + e.name, Order: order,
 					Detail: map[string]interface{}{"checker": fmt.Sprint(static), "run_time": fmt.Sprintf("%T", out)}})
+			}
+		}
+	}
+}
+
+type c16Special struct {
+	Ölstand       int
+	Ärger         string
+	XXX_sizecache int
+	Plain         int
+}
+
+func (c16Special) Élan() int       { return 1 }
+func (c16Special) XXX_Method() int { return 2 }
+
+func c16SpecialNames(r *report.Run, evals *int64) {
+	env := c16Special{Ölstand: 1, Ärger: "a", XXX_sizecache: 3, Plain: 4}
+	builtinDoc := map[string]bool{}
+	for k := range docgen.Builtins {
+		builtinDoc[string(k)] = true
+	}
+	for _, o := range docgen.Operators {
+		builtinDoc[o] = true
+	}
+	doc := docgen.CreateDoc(env)
+	order := int64(1)<<40 + 1000
+	for _, n := range []string{"Ölstand", "Ärger", "XXX_sizecache", "Plain", "Élan", "XXX_Method", "ölstand"} {
+		*evals++
+		order++
+		_, e1 := c16Compile(n, expr.Env(env))
+		_, e2 := c16Compile(n+"()", expr.Env(env))
+		accepted := e1 == nil || e2 == nil
+		_, documented := doc.Variables[docgen.Identifier(n)]
+		if accepted != documented {
+			kind := "documented-but-not-accepted"
+			if accepted {
+				kind = "accepted-but-not-documented"
+			}
+			r.Report(report.Violation{Sub: "docgen", Kind: kind, Witness: "special name " + n, Order: order, Detail: map[string]interface{}{"name": n}})
+		}
+		if _, isMethod := reflect.TypeOf(env).MethodByName(n); e1 == nil && !isMethod {
+			p, _ := c16Compile(n, expr.Env(env))
+			if _, err := c16Run(p, env); err != nil {
+				r.Report(report.Violation{Sub: "accepted-name", Kind: "unresolvable-at-run-time", Witness: "special name " + n, Order: order, Detail: map[string]interface{}{"error": err.Error()}})
 			}
 		}
 	}
